@@ -4,8 +4,7 @@
 (*                                                                         *)
 (* Written from the property text, docs/concepts/fundamentals/             *)
 (* template_tag_syntax.md, the "Supported syntax / Invalid syntax" lists   *)
-(* of parse_tag()'s docstring and the v0.125 changelog.  Three things are   *)
-(* defined:                                                                *)
+(* of parse_tag()'s docstring and the v0.125 changelog.  Defined here:      *)
 (*   - the abstract syntax of an argument list (records, see constructors) *)
 (*   - Denote(args): what the Python receiver must get (args, kwargs,      *)
 (*     flags) - Python/JSON semantics of list/dict literals, splicing of   *)
@@ -18,11 +17,17 @@
 (*     sequence of `args` under a layout `style` (quote kind, whitespace   *)
 (*     at each kind of point where it is insignificant, trailing commas,   *)
 (*     self-closing slash).  Denote does not take a style: layout          *)
-(*     invariance holds by construction; SkeletonInvariant states that     *)
-(*     two layouts differ in insignificant symbols only.                   *)
+(*     invariance holds by construction; MC_C02!SkeletonInvariant states   *)
+(*     that two layouts differ in insignificant symbols only.              *)
 (*   - Invalid(args): the documented invalid combinations (expected        *)
-(*     outcome: TemplateSyntaxError).                                      *)
-(*   - Serial(args, style): canonical serialisation (C12 round trip).      *)
+(*     outcome: TemplateSyntaxError); Outcomes(args, style): the           *)
+(*     admissible outcomes (a set where the documentation is silent).      *)
+(*   - Paths / PathApplies: the receivers the values are observed at.      *)
+(*   - Devs(args): named deviations of the code under test (known          *)
+(*     findings): what it is known to do instead on specific shapes.       *)
+(*   - Serial(args, style): canonical serialisation (C12 round trip);      *)
+(*     TagAlphabet / TplAlphabet / ParseOutcomes / Mutated: the raw input  *)
+(*     space of C12.                                                       *)
 (* TLC cannot take Head/Tail of strings, so a text is a sequence of        *)
 (* symbols (strings) that the harness joins.                               *)
 (***************************************************************************)
@@ -304,13 +309,25 @@ Outcomes(args, st) ==
   IF Invalid(args) THEN {"tse"}
   ELSE IF WsBeforeLiteralOperand(args, st) THEN {"values", "tse"} ELSE {"values"}
 
+\* Receivers.  "probe": a tag made with @template_tag (args, kwargs, flags); "comp": {% component
+\* "name" .. %} and "short": the same component through the shorthand tag formatter ({% name .. %})
+\* - get_context_data(*args, **kwargs); "slot": {% slot "s" .. %}, whose keyword arguments reach
+\* the fill as the slot data - applicable to keyword-only argument lists.
+Paths == {"probe", "comp", "short", "slot"}
+DictishOperand(v) ==
+  LET b == SpreadBase(v) IN b.t = "dict" \/ (b.t = "var" /\ b.n \in DOMAIN Ctx /\ Ctx[b.n].t = "dict")
+SlotArg(a) == \/ a.t \in {"kw", "agg", "kwspread"}
+              \/ (a.t = "spread" /\ a.tok = "..." /\ DictishOperand(a.v))
+SlotApplies(args) == \A i \in 1..Len(args) : SlotArg(args[i])
+PathApplies(args, path) == path # "slot" \/ SlotApplies(args)
+
 (* ------------------------------ named deviations ---------------------- *)
 \* What the code under test is known to do instead of Denote on specific shapes (see
 \* /verif/KNOWN_FINDINGS.txt).  A deviation never makes a case pass: an observed outcome that
 \* equals a deviation's prediction is reported under the deviation's name (a finding key),
 \* anything else as a plain violation.  outcomes: the set of predicted outcomes - "values"
 \* (expect holds the received values), "tse" (TemplateSyntaxError) or "exc:<ExceptionClass>";
-\* path: "both" or "comp".
+\* paths: the receivers it concerns.
 FlagNames == {"only"}
 NoValues == [args |-> <<>>, kwargs |-> <<>>, flags |-> {}]
 IsKwish(a) == a.t \in {"kw", "agg"} \/ (a.t = "spread" /\ ~IsListy(a.v))
@@ -324,7 +341,7 @@ DevFlagArgs(args) == [i \in 1..Len(args) |-> IF FlagKw(args[i]) THEN Flag(args[i
 DevFlag(args) ==
   LET as == DevFlagArgs(args)
       twice == \E i \in 1..Len(as), j \in 1..Len(as) : i < j /\ as[i].t = "flag" /\ as[j] = as[i] IN
-  [name |-> "kw-value-named-like-flag:taken-as-flag", path |-> "both",
+  [name |-> "kw-value-named-like-flag:taken-as-flag", paths |-> {"probe", "comp", "short"},
    outcomes |-> IF twice THEN {"tse"} ELSE {"values"},
    expect |-> IF twice THEN NoValues ELSE Denote(as)]
 
@@ -334,13 +351,19 @@ DevSpreadApplies(args) == \E i \in 1..Len(args) : SpreadFilt(args[i])
 DevSpreadArgs(args) == [i \in 1..Len(args) |-> IF SpreadFilt(args[i]) THEN Pos(args[i].v) ELSE args[i]]
 DevSpread(args) ==
   LET as == DevSpreadArgs(args)
-      \* (aggregated keywords are moved behind everything else before the order is checked)
-      strict(a) == a.t = "kw" \/ (a.t = "spread" /\ ~IsListy(a.v))
+      \* (aggregated keywords are moved behind everything else before the order is checked,
+      \*  and a spread dictionary without entries contributes no keyword)
+      strict(a) == a.t = "kw" \/ (a.t = "spread" /\ ~IsListy(a.v) /\ Len(DictOperand(a.v)) > 0)
       pk == \E i \in 1..Len(as), j \in 1..Len(as) : i < j /\ strict(as[i]) /\ IsPosish(as[j]) IN
-  [name |-> "top-level-spread-with-filter:passed-unspread", path |-> "both",
+  [name |-> "top-level-spread-with-filter:passed-unspread", paths |-> {"probe", "comp", "short"},
    \* a positional after a keyword is refused: TypeError, or SyntaxError after a non-identifier key
    outcomes |-> IF pk THEN {"exc:TypeError", "exc:SyntaxError"} ELSE {"values"},
    expect |-> IF pk THEN NoValues ELSE Denote(as)]
+
+\* ... in {% slot "s" .. %} any positional argument beyond the name is refused
+DevSpreadSlot(args) ==
+  [name |-> "top-level-spread-with-filter:passed-unspread", paths |-> {"slot"},
+   outcomes |-> {"exc:TypeError", "exc:SyntaxError"}, expect |-> NoValues]
 
 \* {% component %} only: a translation string that is not a whitespace-delimited word of its own
 RECURSIVE HasTrans(_)
@@ -352,13 +375,13 @@ HasTrans(v) ==
     [] v.t = "filt"   -> HasTrans(v.b) \/ \E i \in 1..Len(v.fs) : Len(v.fs[i].a) = 1 /\ HasTrans(v.fs[i].a[1])
     [] OTHER          -> FALSE
 DevTransApplies(args) == \E i \in 1..Len(args) : args[i].t # "flag" /\ HasTrans(args[i].v)
-DevTrans(args) == [name |-> "component-tag:translation-string-glued-to-other-syntax:StopIteration", path |-> "comp",
+DevTrans(args) == [name |-> "component-tag:translation-string-glued-to-other-syntax:StopIteration", paths |-> {"comp", "short"},
                    outcomes |-> {"exc:StopIteration"}, expect |-> NoValues]
 
 \* both of the above in one argument list
 DevBoth(args) ==
   LET d == DevSpread(DevFlagArgs(args))  f == DevFlag(args) IN
-  [name |-> f.name \o "+" \o d.name, path |-> "both",
+  [name |-> f.name \o "+" \o d.name, paths |-> {"probe", "comp", "short"},
    outcomes |-> IF f.outcomes = {"tse"} THEN {"tse"} ELSE d.outcomes,
    expect |-> IF f.outcomes = {"tse"} THEN NoValues ELSE d.expect]
 
@@ -366,7 +389,7 @@ DevBoth(args) ==
 DevsInvalid(args) == IF \E i \in 1..Len(args) : args[i].t # "flag" /\ HasTrans(args[i].v) THEN <<DevTrans(args)>> ELSE <<>>
 Devs(args) == IF Invalid(args) THEN DevsInvalid(args) ELSE
               (IF DevFlagApplies(args) THEN <<DevFlag(args)>> ELSE <<>>)
-              \o (IF DevSpreadApplies(args) THEN <<DevSpread(args)>> ELSE <<>>)
+              \o (IF DevSpreadApplies(args) THEN <<DevSpread(args), DevSpreadSlot(args)>> ELSE <<>>)
               \o (IF DevFlagApplies(args) /\ DevSpreadApplies(args) THEN <<DevBoth(args)>> ELSE <<>>)
               \o (IF DevTransApplies(args) THEN <<DevTrans(args)>> ELSE <<>>)
 
